@@ -449,6 +449,15 @@ def rule_F2(prog):
             caps += find_nodes(body, lambda n: n["k"] == "call" and origin(n["f"]).endswith("capture_diff_deadline"))
         if len(caps) < 1:
             problems.append("%d capture_diff_deadline calls" % len(caps))
+        # the integer ids of IdentifyDistinct must not wrap for realistic inputs: at least 32 bits
+        for body in [fn.hir["body"]] + [g.hir["body"] for g in _local_callees(prog, fn)]:
+            for c in find_nodes(body, lambda n: n["k"] == "call" and "IdentifyDistinct" in ((unwrap(n["f"]).get("res") or {}).get("path", "")) and
+                                (unwrap(n["f"]).get("res") or {}).get("path", "").endswith("::new")):
+                ga = (unwrap(c["f"]).get("gargs") or [])
+                ints = [g_.get("n") for g_ in ga if isinstance(g_, dict) and g_.get("k") == "prim"]
+                if ints and ints[0] not in ("u32", "u64", "usize", "u128", "i64", "i128"):
+                    problems.append("IdentifyDistinct::<%s>: ids wrap around after %s distinct tokens" % (
+                        ints[0], {"u8": "256", "u16": "65536", "i8": "128", "i16": "32768", "i32": "2^31"}.get(ints[0], "few")))
         for c in caps:
             a = [origin(x) for x in c["args"]]
             if not a or a[0] != "self.algorithm":
@@ -778,16 +787,18 @@ def rule_F3(prog):
             continue
         mn, arms = ms[0]
         for v, (meth, fields) in HOOK_ARGS.items():
-            a = arms[v]
-            binds = pat_bindings(a["pat"])
-            calls = find_nodes(a["body"], lambda n: n["k"] == "mcall" and n.get("trait") == "algorithms::hook::DiffHook")
-            got = [(c["name"], [local_field(x, binds) for x in c["args"]]) for c in calls]
-            ok = got == [(meth, fields)]
-            r.instances += 1
-            r.ob(ok, "apply_to_hook %s -> %s" % (v, got))
-            if not ok:
-                r.find(fn.path, "apply:%s" % v, "apply_to_hook for %s must call d.%s(%s); found %s" % (
-                    v, meth, ", ".join(fields), got), file=fn.file, line=a["pat"].get("line", fn.line))
+            # every arm that handles the variant (an arm refined by literal sub-patterns, e.g. `Replace { new_len: 0, .. }`,
+            # is an arm of that variant too): re-applying an op must reproduce that op, whatever its field values
+            for a in [x for x in mn["arms"] if v in (variant_of_pat(x["pat"]) or "").split("|")]:
+                binds = pat_bindings(a["pat"])
+                calls = find_nodes(a["body"], lambda n: n["k"] == "mcall" and n.get("trait") == "algorithms::hook::DiffHook")
+                got = [(c["name"], [local_field(x, binds) for x in c["args"]]) for c in calls]
+                ok = got == [(meth, fields)]
+                r.instances += 1
+                r.ob(ok, "apply_to_hook %s -> %s" % (v, got))
+                if not ok:
+                    r.find(fn.path, "apply:%s" % v, "apply_to_hook for %s must call d.%s(%s); found %s" % (
+                        v, meth, ", ".join(fields), got), file=fn.file, line=a["pat"].get("line", fn.line))
     # iter_slices twins
     desc = {}
     for label, fns in (("DiffOp::iter_slices", prog.find("types::DiffOp::iter_slices")),
@@ -852,9 +863,11 @@ ADJ = {
 
 def rule_F5(prog):
     r = RuleResult("F5", "DiffOp::{shift,grow,shrink}_{left,right} have the net effect shift_left(-k,0), shift_right(+k,0), "
-                         "grow_left(-k,+k), grow_right(0,+k), shrink_left(0,-k), shrink_right(+k,-k) on (start, length); "
-                         "adjust applies the start delta to both index fields and the length delta to every length field "
-                         "of each variant, once each; modify subtracts iff the flag is true")
+                         "grow_left(-k,+k), grow_right(0,+k), shrink_left(0,-k), shrink_right(+k,-k) on (start, length): for "
+                         "every variant, both index fields receive exactly the start delta and every length field exactly "
+                         "the length delta, whatever helper functions and delta encodings lie in between (decided by "
+                         "conditional constant propagation through the helpers, engines/neteffect.py)")
+    from . import neteffect
     for name, want in sorted(ADJ.items()):
         fns = prog.find("types::DiffOp::" + name)
         r.instances += 1
@@ -863,90 +876,46 @@ def rule_F5(prog):
             r.find("types::DiffOp::" + name, "missing", "DiffOp::%s not found" % name)
             continue
         fn = fns[0]
-        calls = find_nodes(fn.hir["body"], lambda n: n["k"] == "mcall" and n["name"] == "adjust")
-        got = None
-        if len(calls) == 1 and len(calls[0]["args"]) == 2:
-            got = []
-            for a in calls[0]["args"]:
-                a = unwrap(a)
-                if isinstance(a, dict) and a.get("k") == "tup" and len(a["es"]) == 2:
-                    o0 = origin(a["es"][0])
-                    o1 = origin(a["es"][1])
-                    v0 = "P" if o0 == "adjust" else ("0" if o0 == "lit:0" else o0)
-                    got.append((v0, o1 == "lit:true"))
-                else:
-                    got.append(("?", None))
-            got = tuple(got)
-        ok = got == want
-        r.ob(ok, "DiffOp::%s = adjust%s" % (name, got))
-        if not ok:
-            r.find(fn.path, "helper", "DiffOp::%s must be adjust(%s) as ((amount, subtract?), (amount, subtract?)) for "
-                   "(start, length); found %s" % (name, want, got), file=fn.file, line=fn.line)
-    for fn in prog.find("types::DiffOp::adjust"):
-        ms = [x for x in op_matches(fn) if set(x[1]) >= set(OP_FIELDS)]
-        r.instances += 1
-        if not ms:
-            r.ob(False, "adjust: no match")
-            r.find(fn.path, "no-match", "adjust has no exhaustive match over DiffOp", file=fn.file, line=fn.line)
+        eff, notes = neteffect.net_effects(prog, fn, DIFFOP)
+        if eff is None:
+            r.ob(False, "DiffOp::%s: net effect undecided (%s)" % (name, "; ".join(notes)))
+            r.find(fn.path, "undecided", "the net effect of DiffOp::%s on the op's fields could not be computed (%s)" % (
+                name, "; ".join(notes) or "unsupported shape"), file=fn.file, line=fn.line)
             continue
-        mn, arms = ms[0]
-        for v in OP_FIELDS:
-            a = arms[v]
-            binds = pat_bindings(a["pat"])
-            calls = find_nodes(a["body"], lambda n: n["k"] == "call" and origin(n["f"]).endswith("modify"))
-            got = sorted((local_field(c["args"][0], binds), origin(c["args"][1])) for c in calls if len(c["args"]) == 2)
-            fields = set(binds.values())
-            want = sorted([(f, "adjust_offset") for f in fields if f.endswith("index")] +
-                          [(f, "adjust_len") for f in fields if f.endswith("len")])
-            ok = got == want and {"old_index", "new_index"} <= fields
-            r.instances += 1
-            r.ob(ok, "adjust %s: %s" % (v, got))
-            if not ok:
-                r.find(fn.path, "adjust:%s" % v, "adjust for %s must modify both index fields by the start delta and every "
-                       "length field by the length delta once each; found %s, required %s" % (v, got, want),
-                       file=fn.file, line=a["pat"].get("line", fn.line))
-    for fn in prog.find("types::DiffOp::adjust::modify"):
-        r.instances += 1
-        ifs = find_nodes(fn.hir["body"], lambda n: n["k"] == "if")
-        ok = False
-        got = "?"
-        if len(ifs) == 1:
-            pname = fn.hir["params"][1]["pat"].get("name") if len(fn.hir["params"]) > 1 else None
-            comp = {}       # local id -> tuple component of the (amount, subtract?) parameter
-            for st in find_nodes(fn.hir["body"], lambda n: n.get("k") == "let" and isinstance(n.get("pat"), dict) and n["pat"].get("k") == "tuple"):
-                if st.get("init") and origin(st["init"]) == pname:
-                    for i, sp in enumerate(st["pat"]["pats"]):
-                        if sp.get("k") == "bind":
-                            comp[sp["id"]] = i
-            ppat = fn.hir["params"][1]["pat"] if len(fn.hir["params"]) > 1 else {}
-            if ppat.get("k") == "tuple":
-                for i, sp in enumerate(ppat["pats"]):
-                    if sp.get("k") == "bind":
-                        comp[sp["id"]] = i
-
-            def component(e_):
-                e_ = unwrap(e_)
-                o = origin(e_)
-                if pname and o == pname + ".0":
-                    return 0
-                if pname and o == pname + ".1":
-                    return 1
-                if isinstance(e_, dict) and e_.get("k") == "path" and e_.get("res", {}).get("k") == "local":
-                    return comp.get(e_["res"]["id"])
-                return None
-            c = component(ifs[0]["c"])
-            tn = find_nodes(ifs[0]["t"], lambda n: n["k"] == "assignop")
-            fn_ = find_nodes(ifs[0]["f"], lambda n: n["k"] == "assignop") if ifs[0].get("f") else []
-            t = [x["op"] for x in tn]
-            f = [x["op"] for x in fn_]
-            amounts = [component(x["r"]) for x in tn + fn_]
-            got = ("component %s" % c, t, f, amounts)
-            ok = c == 1 and t in (["-"], ["-="]) and f in (["+"], ["+="]) and amounts == [0, 0]
-        r.ob(ok, "modify: %s" % (got,))
-        if not ok:
-            r.find(fn.path, "modify", "modify must subtract when the flag is true and add otherwise; found %s" % (got,),
-                   file=fn.file, line=fn.line)
+        for v, spec in sorted(OP_FIELDS.items()):
+            fields = {"old_index": want[0], "new_index": want[0]}
+            for side in ("old", "new"):
+                lf = spec[side][1]
+                if lf:
+                    fields[lf] = want[1]
+            for fld, (amt, sub) in sorted(fields.items()):
+                got = set(eff.get((v, fld), set()))
+                # adding or subtracting the constant 0 is no effect
+                got = {(op, a) for op, a in got if not (op in ("+", "-") and a == ("K", 0))}
+                exp = set() if amt == "0" else {("-" if sub else "+", ("P", 1))}
+                ok = got == exp
+                r.instances += 1
+                r.ob(ok, "DiffOp::%s on %s.%s: %s" % (name, v, fld, _fmt_eff(got)))
+                if not ok:
+                    r.find(fn.path, "net:%s:%s" % (v, fld),
+                           "DiffOp::%s must change %s.%s by %s; the code changes it by %s" % (
+                               name, v, fld, _fmt_eff(exp), _fmt_eff(got)), file=fn.file, line=fn.line)
+        stray = sorted(k for k in eff if k[0] not in OP_FIELDS or k[1] not in
+                       set(["old_index", "new_index"] + [OP_FIELDS[k[0]][sd][1] for sd in ("old", "new") if k[0] in OP_FIELDS]))
+        if stray:
+            r.ob(False, "DiffOp::%s writes %s" % (name, stray))
+            r.find(fn.path, "net:stray", "DiffOp::%s writes %s" % (name, stray), file=fn.file, line=fn.line)
     return r
+
+
+def _fmt_eff(es):
+    def a(x):
+        if x == ("P", 1):
+            return "the amount"
+        if isinstance(x, tuple) and x and x[0] == "K":
+            return str(x[1])
+        return "<%s>" % (x[0] if isinstance(x, tuple) and x else x)
+    return "nothing" if not es else " and ".join("%s %s" % (op, a(x)) for op, x in sorted(es, key=str))
 
 
 # ---------------------------------------------------------------- F6
@@ -2080,3 +2049,289 @@ def rule_F15(prog):
         if problems:
             r.find(fn.path, "absorbing-none", "unique(): " + "; ".join(problems), file=fn.file, line=fn.line)
     return r
+
+
+# ---------------------------------------------------------------- F17: the algorithm dispatcher only dispatches
+def rule_F17(prog):
+    r = RuleResult("F17", "algorithms::diff_deadline only dispatches: every Algorithm arm calls the same-named module's "
+                          "diff_deadline with the dispatcher's own (d, old, old_range, new, new_range, deadline) in that order; "
+                          "the dispatcher makes no hook call of its own and never reassigns its range parameters (an algorithm "
+                          "sees exactly the ranges the caller asked for)")
+    for fn in prog.find("algorithms::diff_deadline"):
+        if fn.module != "algorithms":
+            continue
+        r.instances += 1
+        pnames = [pp["pat"].get("name") for pp in fn.hir["params"]]
+        want = [n for n in pnames if n != "alg"]
+        pids = {pp["pat"]["id"]: pp["pat"].get("name") for pp in fn.hir["params"] if pp["pat"].get("k") == "bind"}
+        problems = []
+        arms_seen = 0
+        for mnode in find_nodes(fn.hir["body"], lambda n: n["k"] == "match"):
+            for a in mnode["arms"]:
+                pats = a["pat"]["pats"] if a["pat"].get("k") == "or" else [a["pat"]]
+                vs = [((p_.get("res") or {}).get("path", "")) for p_ in pats]
+                vs = [v.rsplit("::", 1)[-1] for v in vs if "Algorithm::" in v]
+                if not vs:
+                    continue
+                arms_seen += 1
+                body = unwrap(a["body"])
+                if not (isinstance(body, dict) and body.get("k") == "call"):
+                    problems.append("arm %s is not a single call" % "|".join(vs))
+                    continue
+                callee = origin(body["f"])
+                args = [origin(x) for x in body["args"]]
+                for v in vs:
+                    if callee != "%s::diff_deadline" % v.lower():
+                        problems.append("Algorithm::%s dispatches to %s" % (v, callee))
+                if args != want:
+                    problems.append("Algorithm::%s passes (%s)" % ("|".join(vs), ", ".join(args)))
+        if arms_seen == 0:
+            problems.append("no match over Algorithm")
+        hooks = find_nodes(fn.hir["body"], lambda n: n["k"] == "mcall" and n.get("trait") == "algorithms::hook::DiffHook")
+        if hooks:
+            problems.append("the dispatcher itself calls the hook (%s)" % ", ".join(sorted({h["name"] for h in hooks})))
+        for n in find_nodes(fn.hir["body"], lambda n: n["k"] in ("assign", "assignop")):
+            root = n["l"]
+            while isinstance(root, dict) and root.get("k") in ("field", "index", "droptemps", "unary"):
+                root = root.get("base") or root.get("x")
+            if isinstance(root, dict) and root.get("k") == "path" and root.get("res", {}).get("id") in pids:
+                problems.append("parameter `%s` is modified (`%s`)" % (pids[root["res"]["id"]], n.get("src", "")[:50]))
+        r.ob(not problems, "algorithms::diff_deadline: %d arms; %s" % (arms_seen, problems or "pure dispatch"))
+        if problems:
+            r.find(fn.path, "dispatch", "algorithms::diff_deadline must hand its own arguments unchanged to the selected "
+                   "algorithm: " + "; ".join(problems), file=fn.file, line=fn.line)
+    return r
+
+
+# ---------------------------------------------------------------- F18 / F19: recurrences
+def rule_F18(prog):
+    r = RuleResult("F18", "the forward and the backward pass of Myers' middle-snake search pick the predecessor diagonal by the "
+                          "same comparison: every test of the form `v[k - 1] OP v[k + 1]` in algorithms::myers uses one and "
+                          "the same OP (a pass that breaks ties the other way no longer meets its twin on a shortest path)")
+    ops = []
+    for fn in prog.user_fns():
+        if fn.module != "algorithms::myers" or not fn.hir or not fn.hir.get("body") or fn.kind == "Closure":
+            continue
+        for n in find_nodes(fn.hir["body"], lambda n: n["k"] == "binary" and n["op"] in ("<", "<=", ">", ">=")):
+            l, rr = unwrap(n["l"]), unwrap(n["r"])
+            if not (isinstance(l, dict) and isinstance(rr, dict) and l.get("k") == "index" and rr.get("k") == "index"):
+                continue
+            if origin(l["base"]) != origin(rr["base"]):
+                continue
+            il, ir = origin(l["idx"]), origin(rr["idx"])
+            ml = re.match(r"^\((\w+)([-+])lit:1\)$", il)
+            mr = re.match(r"^\((\w+)([-+])lit:1\)$", ir)
+            if not (ml and mr and ml.group(1) == mr.group(1) and ml.group(2) != mr.group(2)):
+                continue
+            op = n["op"]
+            if ml.group(2) == "+":      # normalise to  v[k-1] OP v[k+1]
+                op = {"<": ">", "<=": ">=", ">": "<", ">=": "<="}[op]
+            ops.append((op, fn, n))
+    r.instances = len(ops)
+    kinds = sorted({o for o, _, _ in ops})
+    ok = len(kinds) <= 1
+    r.ob(ok, "algorithms::myers: %d predecessor comparisons, operators %s" % (len(ops), kinds))
+    if not ok:
+        # report the minority
+        from collections import Counter
+        cnt = Counter(o for o, _, _ in ops)
+        minority = min(cnt, key=lambda k: cnt[k])
+        for o, fn, n in ops:
+            if o == minority:
+                r.find(fn.path, "tie-break:%s" % o, "`%s` picks the predecessor diagonal with `%s` while the other pass uses `%s`: "
+                       "the two searches break ties differently" % (n.get("src", ""), o, [k for k in kinds if k != o][0]),
+                       file=fn.file, line=n["line"])
+                break
+    return r
+
+
+def rule_F19(prog):
+    r = RuleResult("F19", "the LCS table obeys its recurrence: in lcs::make_table a cell is diagonal + 1 when the two items are "
+                          "equal and otherwise the MAXIMUM of the cell below and the cell to the right (both neighbours are "
+                          "read and combined by max or by an explicit comparison)")
+    for fn in prog.find("algorithms::lcs::make_table"):
+        r.instances += 1
+        problems = []
+        ifs = [n for n in find_nodes(fn.hir["body"], lambda n: n["k"] == "if")
+               if isinstance(unwrap(n["c"]), dict) and unwrap(n["c"]).get("k") == "binary" and unwrap(n["c"])["op"] == "==" and
+               unwrap(unwrap(n["c"])["l"]).get("k") == "index" and unwrap(unwrap(n["c"])["r"]).get("k") == "index"]
+        if len(ifs) != 1 or not ifs[0].get("f"):
+            problems.append("no single `if a[..] == b[..] { .. } else { .. }`")
+        else:
+            def gets(node):
+                out = []
+                for g in find_nodes(node, lambda n: n["k"] == "mcall" and n["name"] == "get" and n["args"]):
+                    k = unwrap(g["args"][0])
+                    if isinstance(k, dict) and k.get("k") == "tup" and len(k["es"]) == 2:
+                        out.append((g, tuple(origin(x) for x in k["es"])))
+                return out
+            tg, fg = gets(ifs[0]["t"]), gets(ifs[0]["f"])
+            ins = find_nodes(fn.hir["body"], lambda n: n["k"] == "mcall" and n["name"] == "insert" and len(n["args"]) == 2 and
+                             isinstance(unwrap(n["args"][0]), dict) and unwrap(n["args"][0]).get("k") == "tup")
+            key = tuple(origin(x) for x in unwrap(ins[0]["args"][0])["es"]) if ins else None
+            if not key or len(key) != 2:
+                problems.append("no table.insert((i, j), ..)")
+            else:
+                a, b = key
+                diag = ("(%s+lit:1)" % a, "(%s+lit:1)" % b)
+                down, right = ("(%s+lit:1)" % a, b), (a, "(%s+lit:1)" % b)
+                if [k for _, k in tg] != [diag]:
+                    problems.append("equal branch reads %s (required the diagonal %s)" % ([k for _, k in tg], diag))
+                if sorted(k for _, k in fg) != sorted([down, right]):
+                    problems.append("unequal branch reads %s (required %s and %s)" % ([k for _, k in fg], down, right))
+                else:
+                    ids = {g["id"] for g, _ in fg}
+
+                    def covers(node):
+                        return ids <= {g["id"] for g in find_nodes(node, lambda n: n["k"] == "mcall" and n["name"] == "get")}
+                    comb = [n for n in find_nodes(ifs[0]["f"], lambda n: (n["k"] == "mcall" and n["name"] == "max") or
+                                                  (n["k"] == "call" and origin(n["f"]).endswith("max")) or
+                                                  (n["k"] == "binary" and n["op"] in ("<", "<=", ">", ">="))) if covers(n)]
+                    if not comb:
+                        problems.append("the two neighbours are not combined by max / a comparison")
+        r.ob(not problems, "lcs::make_table recurrence: %s" % (problems or "diagonal+1 / max(down, right)"))
+        if problems:
+            r.find(fn.path, "recurrence", "lcs::make_table: " + "; ".join(problems), file=fn.file, line=fn.line)
+    return r
+
+
+# ---------------------------------------------------------------- F20 / F21: tokenizer scanning discipline
+LOOKAHEAD_TESTS = ("map_or", "is_some_and", "is_some", "is_none", "map_or_else")
+
+
+def rule_F20(prog):
+    r = RuleResult("F20", "tokenizers look ahead without consuming: a Peekable iterator is tested with peek(); the result of "
+                          "next() is never used merely as a condition (`it.next().map_or(false, ..)` drops the item it just "
+                          "took whenever the test fails, so that item's bytes vanish from the token stream)")
+    for fn in prog.user_fns():
+        if not fn.hir or not fn.hir.get("body") or fn.kind == "Closure" or not fn.module.startswith("text"):
+            continue
+        for n in find_nodes(fn.hir["body"], lambda n: n["k"] == "mcall" and n["name"] in LOOKAHEAD_TESTS and
+                            (n.get("ty") or "") == "bool"):
+            recv = unwrap(n["recv"])
+            if not (isinstance(recv, dict) and recv.get("k") == "mcall" and recv["name"] in ("peek", "next", "next_back") and
+                    "Peekable" in (recv.get("recv_ty") or "")):
+                continue
+            r.instances += 1
+            ok = recv["name"] == "peek"
+            r.ob(ok, "%s line %d: `%s`" % (fn.path, n["line"], n.get("src", "")[:60]))
+            if not ok:
+                r.find(fn.path, "consuming-lookahead:%s" % _norm_ws(n.get("src", ""))[:60],
+                       "`%s` consumes an item just to test it; when the test fails the item is lost (use peek())" % n.get("src", ""),
+                       file=fn.file, line=n["line"])
+    return r
+
+
+def _norm_ws(s_):
+    return re.sub(r"\s+", "", s_ or "")
+
+
+STD_LINE_SPLITTERS = ("lines", "split_inclusive", "split_terminator", "split", "rsplit", "split_once", "lines_with_terminator",
+                      "splitn")
+
+
+def rule_F21(prog):
+    r = RuleResult("F21", "the line tokenizers scan for line ends themselves: tokenize_lines / tokenize_lines_and_newlines of "
+                          "str and [u8] do not delegate to the standard splitters (str::lines, split_inclusive, split('\\n'), "
+                          "..), whose notion of a line end (no lone CR) differs from this crate's")
+    for fn in prog.user_fns():
+        if not (fn.impl and fn.impl.get("trait") == "text::abstraction::DiffableStr" and
+                fn.name in ("tokenize_lines", "tokenize_lines_and_newlines")) or not fn.hir or not fn.hir.get("body"):
+            continue
+        r.instances += 1
+        bad = [n for n in find_nodes(fn.hir["body"], lambda n: n["k"] == "mcall" and n["name"] in STD_LINE_SPLITTERS and
+                                     not n.get("local") and (n.get("recv_ty") or "").replace("&", "").strip() in ("str", "[u8]", "Self"))]
+        r.ob(not bad, "%s: std splitters used: %s" % (fn.path, [b["name"] for b in bad]))
+        if bad:
+            r.find(fn.path, "std-splitter:%s" % bad[0]["name"], "%s delegates line splitting to `%s`, which does not treat a lone "
+                   "CR as a line end and is not what the other DiffableStr implementation does" % (fn.name, bad[0].get("src", bad[0]["name"])[:80]),
+                   file=fn.file, line=bad[0]["line"])
+    return r
+
+
+# ---------------------------------------------------------------- F22: partial re-initialisation
+def rule_F22(prog):
+    r = RuleResult("F22", "no partial re-initialisation: a `&mut self` method that takes the same kind of argument as the "
+                          "type's constructor and overwrites some of the fields the constructor derives from that argument "
+                          "overwrites all of them (an iterator pointed at another op must not keep counters of the previous op)")
+    by_type = {}
+    for fn in prog.user_fns():
+        if fn.kind == "Closure" or not fn.hir or not fn.hir.get("body") or not fn.impl or fn.impl.get("trait"):
+            continue
+        by_type.setdefault(ty_head(fn.impl.get("self_ty")), []).append(fn)
+    for head, fns in sorted(by_type.items(), key=lambda kv: str(kv[0])):
+        ctors = [f for f in fns if f.name == "new"]
+        if not ctors or head is None:
+            continue
+        ctor = ctors[0]
+        lits = find_nodes(ctor.hir["body"], lambda n: n["k"] == "struct" and n.get("adt") == head)
+        if len(lits) != 1:
+            continue
+        lets = _lets(ctor)
+        cparams = {pp["pat"].get("name"): pp["ty"] for pp in ctor.hir["params"] if pp["pat"].get("name")}
+        deps = {}
+        for x in lits[0]["fields"]:
+            o = origin_deep(x["e"], lets)
+            deps[x["name"]] = {pn for pn in cparams if re.search(r"(?<![\w.])%s\b" % re.escape(pn), o)}
+        for m_ in fns:
+            if m_ is ctor or not m_.hir["params"] or m_.hir["params"][0]["pat"].get("name") != "self":
+                continue
+            if not m_.hir["params"][0]["ty"].startswith("&mut"):
+                continue
+            assigned = set()
+            for a in find_nodes(m_.hir["body"], lambda n: n["k"] in ("assign",)):
+                o = origin(a["l"])
+                mm = re.match(r"^self\.(\w+)$", o)
+                if mm:
+                    assigned.add(mm.group(1))
+            if not assigned:
+                continue
+            for pp in m_.hir["params"][1:]:
+                for cn, cty in cparams.items():
+                    if cty != pp["ty"] or cty in ("usize", "bool"):
+                        continue
+                    derived = {f for f, d in deps.items() if cn in d}
+                    if not (assigned & derived):
+                        continue
+                    r.instances += 1
+                    missing = sorted(derived - assigned)
+                    r.ob(not missing, "%s re-initialises %s from `%s`; fields the constructor derives from it: %s" % (
+                        m_.path, sorted(assigned & derived), pp["pat"].get("name"), sorted(derived)))
+                    if missing:
+                        r.find(m_.path, "partial-reinit:%s" % ",".join(missing),
+                               "%s overwrites %s from its `%s` argument but leaves %s as they were, although %s::new derives "
+                               "them from the same argument: they still describe the previous value" % (
+                                   m_.name, sorted(assigned & derived), pp["pat"].get("name"), missing, head.rsplit("::", 1)[-1]),
+                               file=m_.file, line=m_.line)
+    return r
+
+
+# ---------------------------------------------------------------- premises of reviewed exceptions (spec.EXCEPTIONS)
+def premise_delete_arm_suffix_on_empty_range(prog):
+    """In shift_diff_ops_up's (Delete, Equal) arm every common_suffix_len call measures against the new range of the
+    Delete op itself (always empty, so the result is 0 and the `suffix_len != 0` branch is dead)."""
+    found = 0
+    for fn in prog.find("algorithms::compact::shift_diff_ops_up"):
+        lets = _lets(fn)
+        for mnode in find_nodes(fn.hir["body"], lambda n: n["k"] == "match"):
+            sc = unwrap(mnode["scrut"])
+            if not (isinstance(sc, dict) and sc.get("k") == "tup" and len(sc["es"]) == 2):
+                continue
+            first = unwrap(sc["es"][0])
+            if not (isinstance(first, dict) and first.get("k") == "mcall" and first["name"] == "tag"):
+                continue
+            who = origin_deep(first["recv"], lets)
+            for tags, arm, mn in _tag_pair_arms(fn):
+                if mn is not mnode or tags != ("Delete", "Equal"):
+                    continue
+                calls = find_nodes(arm["body"], lambda n: n["k"] == "call" and origin(n["f"]).endswith("common_suffix_len"))
+                if not calls:
+                    return False
+                for c in calls:
+                    if len(c["args"]) != 4 or origin_deep(c["args"][3], lets) != who + ".new_range()":
+                        return False
+                    found += 1
+    return found > 0
+
+
+PREMISES = {"delete_arm_suffix_on_empty_range": premise_delete_arm_suffix_on_empty_range}
